@@ -23,18 +23,35 @@ type LogEntry struct {
 type RecLogger struct {
 	mu      sync.Mutex
 	entries []LogEntry
+	// Tee, if set, receives every Infof/Errorf/Debugf/Record call after it has been recorded, with the
+	// arguments as the server passed them (the reference logger of cmds/server/log, writing to a buffer)
+	Tee interface {
+		Infof(ctx context.Context, format string, args ...interface{})
+		Errorf(ctx context.Context, format string, args ...interface{})
+		Debugf(ctx context.Context, format string, args ...interface{})
+		Record(ctx context.Context, r map[string]string, obscure ...string)
+	}
 }
 
 func (l *RecLogger) add(e LogEntry) { l.mu.Lock(); l.entries = append(l.entries, e); l.mu.Unlock() }
 
 func (l *RecLogger) Infof(ctx context.Context, format string, args ...interface{}) {
 	l.add(LogEntry{Kind: "infof", Text: fmt.Sprintf(format, args...)})
+	if l.Tee != nil {
+		l.Tee.Infof(ctx, format, args...)
+	}
 }
 func (l *RecLogger) Errorf(ctx context.Context, format string, args ...interface{}) {
 	l.add(LogEntry{Kind: "errorf", Text: fmt.Sprintf(format, args...)})
+	if l.Tee != nil {
+		l.Tee.Errorf(ctx, format, args...)
+	}
 }
 func (l *RecLogger) Debugf(ctx context.Context, format string, args ...interface{}) {
 	l.add(LogEntry{Kind: "debugf", Text: fmt.Sprintf(format, args...)})
+	if l.Tee != nil {
+		l.Tee.Debugf(ctx, format, args...)
+	}
 }
 func (l *RecLogger) Record(ctx context.Context, r map[string]string, obscure ...string) {
 	cp := make(map[string]string, len(r))
@@ -42,6 +59,9 @@ func (l *RecLogger) Record(ctx context.Context, r map[string]string, obscure ...
 		cp[k] = v
 	}
 	l.add(LogEntry{Kind: "record", Map: cp, Obscure: append([]string{}, obscure...)})
+	if l.Tee != nil {
+		l.Tee.Record(ctx, r, obscure...)
+	}
 }
 func (l *RecLogger) Set(ctx context.Context, fields map[string]string, keys ...tq.ContextKey) context.Context {
 	e := LogEntry{Kind: "set", Map: map[string]string{}}
